@@ -14,12 +14,45 @@ package orda
 // the checkpoint becomes the component-wise maximum; no panic.
 
 import (
+	gocontext "context"
+
+	"google.golang.org/grpc"
+
 	"github.com/orda-io/orda/client/pkg/model"
 	"github.com/orda-io/orda/client/pkg/vf"
 )
 
-func VF_C07_ClientStep() {
-	c := vfNewCounter()
+// vfStubService answers every push-pull request with the prepared pack (the
+// other RPCs are not used).
+type vfStubService struct {
+	model.OrdaServiceClient
+	pack  *model.PushPullPack
+	calls int
+}
+
+func (s *vfStubService) ProcessPushPull(ctx gocontext.Context, in *model.PushPullMessage, opts ...grpc.CallOption) (*model.PushPullMessage, error) {
+	s.calls++
+	return &model.PushPullMessage{Header: in.Header, Collection: in.Collection, Cuid: in.Cuid, PushPullPacks: []*model.PushPullPack{s.pack}}, nil
+}
+
+func VF_C07_ClientStep() { c07ClientStep(false) }
+
+// VF_C07_ClientSync: the same step with the response consumed through the
+// client's own Sync (real clientImpl, DatatypeManager and SyncManager around a
+// service stub that returns the response), so that whatever the client does to
+// a response before the datatype sees it is part of the step.
+func VF_C07_ClientSync() { c07ClientStep(true) }
+
+func c07ClientStep(throughSync bool) {
+	var c *counter
+	var cli Client
+	stub := &vfStubService{}
+	if throughSync {
+		cli = VFNewClient("col", "x", "AAAAAAAAAAAAAAAA", model.SyncType_MANUALLY, stub)
+		c = cli.SubscribeCounter("k", nil).(*counter) // (no snapshot operation of its own in the buffer)
+	} else {
+		c = vfNewCounter()
+	}
 	c.SetState(model.StateOfDatatype_SUBSCRIBED)
 	me := c.GetCUID()
 	sr, cr := vf.U64("s_r"), vf.U64("c_r")
@@ -51,14 +84,31 @@ func VF_C07_ClientStep() {
 	s, cc := sr+uint64(j), cr+uint64(ownBefore+extra)
 	c.SetCheckPoint(s, cc)
 	c.GetOpID().Seq = cr + uint64(nOwn+extra)
-	lam := vf.U64("lamport")
-	vf.Assume(vf.All(lam >= 1, lam < 1<<61))
+	// the log order is the server's arrival order: the Lamport clocks of the entries are
+	// arbitrary (a client that has not pulled the others' work pushes with a small clock),
+	// increasing only within one owner; two foreign owners
+	lams := make([]uint64, L)
+	for i := range lams {
+		lams[i] = vf.U64("lamport")
+		vf.Assume(vf.All(lams[i] >= 1, lams[i] < 1<<61))
+	}
+	foreign := make([]string, L)
+	for i := range foreign {
+		foreign[i] = []string{"OOOOOOOOOOOOOOOO", "PPPPPPPPPPPPPPPP"}[vf.Choice("foreign-owner", 2)]
+	}
+	for i := 0; i < L; i++ {
+		for k := 0; k < i; k++ {
+			if own[i] == own[k] && (own[i] || foreign[i] == foreign[k]) {
+				vf.Assume(lams[k] < lams[i])
+			}
+		}
+	}
 	pack := &model.PushPullPack{Key: c.GetKey(), DUID: c.GetDUID(), Type: model.TypeOfDatatype_COUNTER,
 		CheckPoint: &model.CheckPoint{Sseq: sr + uint64(L), Cseq: cr + uint64(nOwn)}}
 	want := int32(0)
 	seqOwn, seqOther := cr, uint64(100)
 	for i := 0; i < L; i++ {
-		owner := "OOOOOOOOOOOOOOOO"
+		owner := foreign[i]
 		var seq uint64
 		if own[i] {
 			owner = me
@@ -72,13 +122,24 @@ func VF_C07_ClientStep() {
 			}
 		}
 		pack.Operations = append(pack.Operations, &model.Operation{
-			ID:     &model.OperationID{Era: 0, Lamport: lam + uint64(i), CUID: owner, Seq: seq},
+			ID:     &model.OperationID{Era: 0, Lamport: lams[i], CUID: owner, Seq: seq},
 			OpType: model.TypeOfOperation_COUNTER_INCREASE,
 			Body:   []byte(`{"Delta":` + vfItoa(int(vfPow10(i))) + `}`),
 		})
 	}
-	panicked, msg := vf.Try(func() { c.ApplyPushPullPack(pack) })
+	var syncErr error
+	panicked, msg := vf.Try(func() {
+		if throughSync {
+			stub.pack = pack
+			syncErr = cli.Sync()
+		} else {
+			c.ApplyPushPullPack(pack)
+		}
+	})
 	vf.Quiesce()
+	if throughSync {
+		vf.Assert(syncErr == nil && stub.calls == 1, "C05 one Sync call makes one exchange and succeeds")
+	}
 	vf.Reach("applied")
 	if panicked {
 		vf.Tag("_panic", msg)
